@@ -28,12 +28,9 @@ theorem grow_bit (c : Consts) (w s : W) (i : Nat) (hi : i < 64) :
   unfold Gen.grow
   simp only [BitVec.getLsbD_and, BitVec.getLsbD_or, BitVec.getLsbD_shiftLeft,
     BitVec.getLsbD_ushiftRight, BitVec.getLsbD_not, hi, decide_true, Bool.true_and]
-  congr 1
-  have e1 : (!decide (i < 1)) = decide (1 ≤ i) := by
-    by_cases h : i < 1 <;> simp [h] <;> omega
-  have e2 : (!decide (i < c.Size)) = decide (c.Size ≤ i) := by
-    by_cases h : i < c.Size <;> simp [h] <;> omega
-  rw [e1, e2, Nat.add_comm 1 i, Nat.add_comm c.Size i]
+  -- congruence closure + linear arithmetic on the shifted indices: robust against harmless rewrites of `Grow`
+  -- (operand order, `c.Size + 1 - 1`, …) that would break a syntactic `rw`
+  grind
 
 /-! ### the per-size masks, by kernel evaluation over the 64 bit positions.
 Naming trap: Go's `c.R` is the column x = 0, `c.L` the column x = size-1. -/
